@@ -27,21 +27,21 @@ theorem alloc_place_view (w : World) (hf : w.Flushed) (a : Nat) (ha : a < w.arch
   · intro id; rw [place_genAt, a1]
   · intro id; rw [place_valsOf _ _ _ _ _ ha1 hid h1.pre.bij.locOK, a2]
 
-theorem spawnBatchRows_spec (a : Nat) (rows : List (List Comp)) (w : World) (acc : List Entity)
+theorem spawnBatchRows_spec' (a : Nat) (rows : List (List Comp)) (w : World) (acc : List Entity)
     (hf : w.Flushed) (ha : a < w.archs.size)
     (hty : ∀ row, row ∈ rows → (canon row).map (·.1) = w.typesOf a) :
     ∃ es, (spawnBatchRows a rows w acc).2 = acc.reverse ++ es ∧ es.length = rows.length ∧
       (spawnBatchRows a rows w acc).1.Flushed ∧
       (∀ p, p ∈ es.zip rows → (spawnBatchRows a rows w acc).1.lookup p.1 = some (canon p.2)) ∧
       (∀ e, e ∈ es → w.valsOf e.id = none) ∧
-      (∀ e, e ∉ es → (spawnBatchRows a rows w acc).1.lookup e = w.lookup e) := by
+      (∀ e, e ∉ es → (spawnBatchRows a rows w acc).1.lookup e = w.lookup e) ∧ es.Nodup := by
   induction rows generalizing w acc with
   | nil =>
-    exact ⟨[], by simp [spawnBatchRows], rfl, hf, by simp, by simp, fun _ _ => rfl⟩
+    exact ⟨[], by simp [spawnBatchRows], rfl, hf, by simp, by simp, fun _ _ => rfl, List.nodup_nil⟩
   | cons b bs ih =>
     obtain ⟨s1, s2, s3, s4⟩ := alloc_place_view w hf a ha (canon b) (hty b (by simp))
     have harchs := alloc_archs w
-    obtain ⟨es, i1, i2, i3, i4, i5, i6⟩ := ih ((w.alloc).1.place a (w.alloc).2.id (canon b)) ((w.alloc).2 :: acc) s1
+    obtain ⟨es, i1, i2, i3, i4, i5, i6, i7⟩ := ih ((w.alloc).1.place a (w.alloc).2.id (canon b)) ((w.alloc).2 :: acc) s1
       (by rw [place_archs_size, harchs]; exact ha)
       (by intro row hrow; rw [place_typesOf, typesOf_of_archs harchs]; exact hty row (by simp [hrow]))
     have e : spawnBatchRows a (b :: bs) w acc =
@@ -62,7 +62,7 @@ theorem spawnBatchRows_spec (a : Nat) (rows : List (List Comp)) (w : World) (acc
         rw [s2, if_pos hi]
         intro hh; exact hg (Option.some.inj hh).symm
       · exact lookup_congr hf.cursor s1.cursor (by rw [s2, if_neg hi]) (by rw [s3, if_neg hi])
-    refine ⟨(w.alloc).2 :: es, by rw [i1]; simp, by simp [i2], i3, ?_, ?_, ?_⟩
+    refine ⟨(w.alloc).2 :: es, by rw [i1]; simp, by simp [i2], i3, ?_, ?_, ?_, List.nodup_cons.2 ⟨hnot, i7⟩⟩
     · intro p hp
       rw [List.zip_cons_cons, List.mem_cons] at hp
       rcases hp with rfl | hp
@@ -81,21 +81,21 @@ theorem spawnBatchRows_spec (a : Nat) (rows : List (List Comp)) (w : World) (acc
       simp only [List.mem_cons, not_or] at he'
       rw [i6 _ he'.2, hstep _ he'.1]
 
-theorem spawnBatch_spec (w : World) (ts : List Nat) (rows : List (List Comp)) (h : w.Good)
+theorem spawnBatch_spec' (w : World) (ts : List Nat) (rows : List (List Comp)) (h : w.Good)
     (hts : ts.Nodup) (hrows : ∀ row, row ∈ rows → (canon row).map (·.1) = sortNat ts) :
     ∃ es, (w.spawnBatch ts rows).2.res = .ents es ∧ (w.spawnBatch ts rows).2.dropped = [] ∧
       es.length = rows.length ∧
       (∀ p, p ∈ es.zip rows → (w.spawnBatch ts rows).1.lookup p.1 = some (canon p.2)) ∧
       (∀ e g, e ∈ es → w.flush.lookup ⟨e.id, g⟩ = none) ∧
-      (∀ e, e ∉ es → (w.spawnBatch ts rows).1.lookup e = w.flush.lookup e) := by
+      (∀ e, e ∉ es → (w.spawnBatch ts rows).1.lookup e = w.flush.lookup e) ∧ es.Nodup := by
   have hf := flush_flushed' w h
   obtain ⟨g1, g2, g3, g4, _, _⟩ := getArch_spec w.flush (sortNat ts) hf.good.arch (sortNat_sorted ts hts)
   have hf1 : (w.reserve ts).1.Flushed := hf.same g1 g4
-  obtain ⟨es, i1, i2, i3, i4, i5, i6⟩ := spawnBatchRows_spec (w.reserve ts).2 rows (w.reserve ts).1 [] hf1 g2
+  obtain ⟨es, i1, i2, i3, i4, i5, i6, i7⟩ := spawnBatchRows_spec' (w.reserve ts).2 rows (w.reserve ts).1 [] hf1 g2
     (by intro row hrow; rw [hrows row hrow]; exact g3.symm)
   have hsame : ∀ e, (w.reserve ts).1.lookup e = w.flush.lookup e := fun e =>
     lookup_congr hf.cursor hf1.cursor (g1.genAt _) (g1.valsOf _)
-  refine ⟨es, ?_, rfl, i2, i4, ?_, ?_⟩
+  refine ⟨es, ?_, rfl, i2, i4, ?_, ?_, i7⟩
   · show Res.ents (spawnBatchRows (w.reserve ts).2 rows (w.reserve ts).1 []).2 = _
     rw [i1]; rfl
   · intro e g he
@@ -219,13 +219,13 @@ theorem mem_zip_map_left {α β γ} (f : α → β) (l : List α) (r : List γ) 
   simp only [List.length_zip, List.length_map] at hj
   exact ⟨j, by omega, by omega, by simp⟩
 
-theorem spawnColumnBatch_spec (w : World) (ts : List Nat) (rows : List (List Comp))
+theorem spawnColumnBatch_spec' (w : World) (ts : List Nat) (rows : List (List Comp))
     (h : w.Good) (hts : strictSorted ts = true) (hrows : ∀ row, row ∈ rows → row.map (·.1) = ts) :
     ∃ es, (w.spawnColumnBatch ts rows).2.res = .ents es ∧ (w.spawnColumnBatch ts rows).2.dropped = [] ∧
       es.length = rows.length ∧
       (∀ p, p ∈ es.zip rows → (w.spawnColumnBatch ts rows).1.lookup p.1 = some p.2) ∧
       (∀ e g, e ∈ es → w.flush.lookup ⟨e.id, g⟩ = none) ∧
-      (∀ e, e ∉ es → (w.spawnColumnBatch ts rows).1.lookup e = w.flush.lookup e) := by
+      (∀ e, e ∉ es → (w.spawnColumnBatch ts rows).1.lookup e = w.flush.lookup e) ∧ es.Nodup := by
   have hf := flush_flushed' w h
   have hfin := spawnColumnBatch_flushed w ts rows h hts hrows
   unfold spawnColumnBatch at hfin ⊢
@@ -303,7 +303,7 @@ theorem spawnColumnBatch_spec (w : World) (ts : List Nat) (rows : List (List Com
         · omega
     | some g => rw [genOf_of_genAt hg]
   have hvals0 : ∀ id, w3.valsOf id = w0.valsOf id → w4.valsOf id = w0.valsOf id := fun id hh => by rw [k2, hh]
-  refine ⟨_, rfl, trivial, by simp [hlen], ?_, ?_, ?_⟩
+  refine ⟨_, rfl, trivial, by simp [hlen], ?_, ?_, ?_, ?_⟩
   · intro p hp
     obtain ⟨j, h1, h2, rfl⟩ := mem_zip_map_left _ _ _ _ hp
     apply lookup_some_of hfin.cursor
@@ -334,6 +334,28 @@ theorem spawnColumnBatch_spec (w : World) (ts : List Nat) (rows : List (List Com
       split
       · rfl
       · rw [if_neg (by omega)]; symm; rw [genAt_eq_none]; omega
+  · exact hnd.map _ (fun a b hab hh => hab (by simpa using congrArg Entity.id hh))
+
+/-- the batch specifications without the distinctness clause (the form most callers use) -/
+theorem spawnBatch_spec (w : World) (ts : List Nat) (rows : List (List Comp)) (h : w.Good)
+    (hts : ts.Nodup) (hrows : ∀ row, row ∈ rows → (canon row).map (·.1) = sortNat ts) :
+    ∃ es, (w.spawnBatch ts rows).2.res = .ents es ∧ (w.spawnBatch ts rows).2.dropped = [] ∧
+      es.length = rows.length ∧
+      (∀ p, p ∈ es.zip rows → (w.spawnBatch ts rows).1.lookup p.1 = some (canon p.2)) ∧
+      (∀ e g, e ∈ es → w.flush.lookup ⟨e.id, g⟩ = none) ∧
+      (∀ e, e ∉ es → (w.spawnBatch ts rows).1.lookup e = w.flush.lookup e) := by
+  obtain ⟨es, a, b, c, d, e, f, _⟩ := spawnBatch_spec' w ts rows h hts hrows
+  exact ⟨es, a, b, c, d, e, f⟩
+
+theorem spawnColumnBatch_spec (w : World) (ts : List Nat) (rows : List (List Comp))
+    (h : w.Good) (hts : strictSorted ts = true) (hrows : ∀ row, row ∈ rows → row.map (·.1) = ts) :
+    ∃ es, (w.spawnColumnBatch ts rows).2.res = .ents es ∧ (w.spawnColumnBatch ts rows).2.dropped = [] ∧
+      es.length = rows.length ∧
+      (∀ p, p ∈ es.zip rows → (w.spawnColumnBatch ts rows).1.lookup p.1 = some p.2) ∧
+      (∀ e g, e ∈ es → w.flush.lookup ⟨e.id, g⟩ = none) ∧
+      (∀ e, e ∉ es → (w.spawnColumnBatch ts rows).1.lookup e = w.flush.lookup e) := by
+  obtain ⟨es, a, b, c, d, e, f, _⟩ := spawnColumnBatch_spec' w ts rows h hts hrows
+  exact ⟨es, a, b, c, d, e, f⟩
 
 /-! ### spawnColumnBatchAt -/
 
